@@ -367,6 +367,11 @@ fn is_signature_file(filename: &str) -> bool {
     matches!(filename, "(signature)" | "(strong signature)")
 }
 
+/// Check if a file is one the builder generates itself for the target archive
+fn is_regenerated_file(filename: &str) -> bool {
+    matches!(filename, "(listfile)" | "(attributes)")
+}
+
 /// Verify that the rebuilt archive matches the original
 fn verify_rebuild(source_path: &Path, target_path: &Path, options: &RebuildOptions) -> Result<()> {
     let mut source_archive = Archive::open(source_path)?;
@@ -379,9 +384,14 @@ fn verify_rebuild(source_path: &Path, target_path: &Path, options: &RebuildOptio
         .list()
         .unwrap_or_else(|_| target_archive.list_all().unwrap_or_default());
 
-    // Calculate expected file count after filtering
+    // Calculate expected file count after filtering. The listfile and the attributes file are
+    // written anew by the builder (a listfile that did not list itself, or was filtered out, still
+    // comes back as one that does), so they are not part of what is compared.
     let mut expected_files = Vec::new();
     for file in &source_files {
+        if is_regenerated_file(&file.name) {
+            continue;
+        }
         if options.skip_signatures && is_signature_file(&file.name) {
             continue;
         }
@@ -391,11 +401,15 @@ fn verify_rebuild(source_path: &Path, target_path: &Path, options: &RebuildOptio
         expected_files.push(&file.name);
     }
 
-    if target_files.len() != expected_files.len() {
+    let target_count = target_files
+        .iter()
+        .filter(|file| !is_regenerated_file(&file.name))
+        .count();
+    if target_count != expected_files.len() {
         return Err(Error::invalid_format(format!(
             "File count mismatch: expected {}, got {}",
             expected_files.len(),
-            target_files.len()
+            target_count
         )));
     }
 
